@@ -28,35 +28,31 @@ def read_json(path):
 
 
 def read_rows_file(path):
-    """Return (rows, parses). rows are lists of the six fields as strings."""
+    """Return (rows, parses). rows are lists of the six fields as strings. Read the way JADE's own reader does
+    (text mode with universal newlines, csv.DictReader, int/float conversion of the numeric fields)."""
     try:
-        with open(path, newline="") as f:
-            text = f.read()
+        f = open(path, newline=None)
     except FileNotFoundError:
         return None, True
-    lines = text.split("\n")
-    ok = True
-    if text and not text.endswith("\n"):
-        ok = False
-    rows = []
-    if not lines or lines[0].split(",") != FIELDS:
-        ok = False
-        body = lines
-    else:
-        body = lines[1:]
-    for line in body:
-        if line == "":
-            continue
-        parts = next(csv.reader([line]))
-        if len(parts) != len(FIELDS):
-            ok = False
-            rows.append((parts + [""] * 6)[:6])
-            continue
+    rows, ok = [], True
+    with f:
         try:
-            int(parts[1]); float(parts[3]); float(parts[4])
-        except ValueError:
+            reader = csv.DictReader(f)
+            if reader.fieldnames != FIELDS:
+                ok = False
+            for rec in reader:
+                vals = [rec.get(k) for k in FIELDS]
+                if any(v is None for v in vals) or None in rec:
+                    ok = False
+                    rows.append([("" if v is None else str(v)) for v in vals])
+                    continue
+                try:
+                    int(vals[1]); float(vals[3]); float(vals[4])
+                except ValueError:
+                    ok = False
+                rows.append(vals)
+        except csv.Error:
             ok = False
-        rows.append(parts)
     return rows, ok
 
 
